@@ -2183,8 +2183,9 @@ func (s *Server) ProcessSearch(ctx context.Context, req *protoobject.SearchV2Req
 		)
 		if len(attrs) > 0 {
 			firstFilter = &ofs[0].SearchFilter
-			// No reason to compare equal values.
-			if body.Filters[0].MatchType != protoobject.MatchType_STRING_EQUAL {
+			// No reason to compare equal values. Objects lacking the attribute are
+			// ordered by ID only.
+			if body.Filters[0].MatchType != protoobject.MatchType_STRING_EQUAL && fs[0].Operation() != object.MatchNotPresent {
 				firstAttr = fs[0].Header()
 			}
 		}
